@@ -207,14 +207,24 @@ def copy(cks, size, thr, chunk):
 
 
 _UP = 'size: int, thr: int, chunk: int, off: int, r1: int'
-_UPRE = ['0 <= size', '1 <= thr', '1 <= chunk', '0 <= off', 'size <= 3 * max(chunk, 5 * 1024 ** 2)', '-1 <= r1']
+_UPRE = ['0 <= size', '1 <= thr', '1 <= chunk <= 5 * 1024 ** 3', '0 <= off', 'size <= 3 * max(chunk, 5 * 1024 ** 2)',
+         'size <= 10000 * chunk', '-1 <= r1']
 _SPL = [['size < thr'], ['size >= thr', 'size <= max(chunk, 5 * 1024 ** 2)'],
         ['size >= thr', 'max(chunk, 5 * 1024 ** 2) < size <= 2 * max(chunk, 5 * 1024 ** 2)'],
         ['size >= thr', '2 * max(chunk, 5 * 1024 ** 2) < size']]
+_E = 'max(chunk, 5 * 1024 ** 2)'
+_SPL3T = [['size < thr'],
+          ['size >= thr', 'size <= ' + _E],
+          ['size >= thr', _E + ' < size <= 2 * ' + _E, 'thr <= ' + _E],
+          ['size >= thr', _E + ' < size <= 2 * ' + _E, 'thr > ' + _E],
+          ['size >= thr', '2 * ' + _E + ' < size', 'thr <= ' + _E],
+          ['size >= thr', '2 * ' + _E + ' < size', _E + ' < thr <= 2 * ' + _E],
+          ['size >= thr', '2 * ' + _E + ' < size', '2 * ' + _E + ' < thr']]
+_SPL3 = [sp + ['s2 == 0'] for sp in _SPL3T]
 OBLIGATIONS = [
     dict(id='C01.1', impl='upload', params=_UP, pre=_UPRE + ['off == 0'],
          cases=[('path', 0, False, False), ('path', 1, True, True)], splits=_SPL, timeout=(150, 900),
-         bounds='<= 3 parts; size/threshold/chunksize symbolic and otherwise unbounded; first body read of symbolic '
+         bounds='<= 3 parts; size/threshold/chunksize symbolic, chunksize <= 5 GiB and size <= 10000*chunksize (no doubling / upper clamp in the e2e runs: those are C14.1 at real scale); first body read of symbolic '
                 'size; case 2: every body pre-read while disabled, then sent twice (1 rewind)',
          encodes=['TransferManager.upload', 'UploadSubmissionTask._submit', 'UploadFilenameInputManager',
                   'ReadFileChunk', 'DeferredOpenFile', 'PutObjectTask', 'UploadPartTask', 'CreateMultipartUploadTask',
@@ -226,15 +236,22 @@ OBLIGATIONS = [
          encodes=['UploadSeekableInputManager', 'BytesIO part buffers (BlobIO)', 'ReadFileChunk'],
          assumptions=['S1', 'S2', 'A3', 'identity-content data']),
     dict(id='C01.3', impl='upload_stream', params='size: int, thr: int, chunk: int, s1: int, s2: int, r1: int',
-         pre=['0 <= size', '1 <= thr', '1 <= chunk', 'size <= 3 * max(min(chunk, 5 * 1024 ** 3), 5 * 1024 ** 2)',
+         pre=['0 <= size', '1 <= thr', '1 <= chunk <= 5 * 1024 ** 3', 'size <= 3 * max(chunk, 5 * 1024 ** 2)',
               '-1 <= r1', '0 <= s1 and 0 <= s2'],
-         cases=[(False,), (True,)],
-         splits=[['size < thr'], ['size >= thr', 'size <= 5 * 1024 ** 2'], ['size >= thr', 'size > 5 * 1024 ** 2']],
-         timeout=(150, 900),
+         cases=[(False,)], cases_thorough=[(False,), (True,)],
+         splits=_SPL3, splits_thorough=_SPL3T, timeout=(150, 1200),
          bounds='<= 3 parts; unknown size; case 2: the stream returns short reads of symbolic length (two of them)',
          encodes=['UploadNonSeekableInputManager.requires_multipart_upload', '_read', 'yield_upload_part_bodies',
                   '_wrap_data'],
          assumptions=['S1', 'S2', 'A3', 'A4 (case 1 only)', 'identity-content data']),
+    dict(id='C01.3s', impl='upload_stream', params='size: int, thr: int, chunk: int, s1: int, s2: int, r1: int',
+         pre=['0 <= size', '1 <= thr', '1 <= chunk <= 5 * 1024 ** 3', 'size <= 2 * max(chunk, 5 * 1024 ** 2)',
+              'r1 == -1', '0 <= s1 and s2 == 0'],
+         cases=[(True,)], splits=[['size < thr'], ['size >= thr', 'size <= ' + _E, 's1 < thr'],
+                                  ['size >= thr', 'size <= ' + _E, 's1 >= thr']], tier='quick-only',
+         timeout=(150, 150),
+         bounds='<= 2 parts (+1 from a short read); the threshold read returns a short read of symbolic length',
+         encodes=['UploadNonSeekableInputManager'], assumptions=['S1', 'S2', 'A3', 'identity-content data']),
     dict(id='C01.3k', impl='nonseekable_read', params='ilen: int, left: int, amount: int, truncate: bool',
          pre=['0 <= ilen', '0 <= left', '1 <= amount'], timeout=(60, 300),
          bounds='none (buffer length, remaining stream, amount unbounded)',
@@ -250,7 +267,8 @@ OBLIGATIONS = [
          cases=[(1,), (3,), (4,)], pre=[], timeout=(60, 300), bounds='<= 4 part futures',
          encodes=['Task._get_all_main_kwargs'], assumptions=[]),
     dict(id='C01.6', impl='copy', params='size: int, thr: int, chunk: int',
-         pre=['0 <= size', '1 <= thr', '1 <= chunk', 'size <= 3 * max(chunk, 5 * 1024 ** 2)'],
+         pre=['0 <= size', '1 <= thr', '1 <= chunk <= 5 * 1024 ** 3', 'size <= 3 * max(chunk, 5 * 1024 ** 2)',
+              'size <= 10000 * chunk'],
          cases=[(False,), (True,)], splits=_SPL[:1] + [['size >= thr']], timeout=(150, 900),
          bounds='<= 3 parts; all sizes symbolic',
          encodes=['TransferManager.copy', 'CopySubmissionTask._submit', 'CopyObjectTask', 'CopyPartTask',
